@@ -8,6 +8,14 @@ converted to exact integers here (never compared as floats):
     the millisecond (stamps built from a datetime, whose view may keep the sub-millisecond part);
   * as_datetime(): exact integer microseconds since the Unix epoch, and — for stamps built from
     (days, ms) — compared exactly with datetime(1958,1,1,tzinfo=utc)+timedelta(days, milliseconds).
+
+Which truncation `stamp + timedelta` uses (model `Stamp.add`, theorems `C14_add` / `C14_td_floor_ms`, and the code at hand):
+the timedelta is CPython's normalised (days, seconds, microseconds) with days >= 0, and its millisecond count is
+days*86 400 000 + seconds*1000 + microseconds // 1000 = floor(total microseconds / 1000). Only the timedelta is floored, and
+every addition floors its own timedelta: a stamp IS its (days, ms) pair, it has no sub-millisecond part, so two additions of
+999 us leave the stamp where it was, and from_datetime(12:00:00.000700) + 1400 us is 12:00:00.001 (not .002). The reference
+for every `cds_add` line is the model's answer on (days, ms, timedelta) - however the stamp holding (days, ms) was obtained
+(key "src" below).
 """
 import random
 import warnings
@@ -74,13 +82,29 @@ def _stamp_view(s) -> Dict[str, Any]:
             "dt": _dt_view(s).isoformat()}
 
 
+def _pfield_octet(s) -> Optional[int]:
+    """the `pfield` view as an octet value (bytes-like of length 1 in the tree at hand; an int would do as well);
+    None where the class has no such attribute; -1 for anything that is not one octet"""
+    p = getattr(s, "pfield", None)
+    if p is None:
+        return None
+    if isinstance(p, int):
+        return int(p)
+    b = bytes(p)
+    return b[0] if len(b) == 1 else -1
+
+
 def _packed_form(s, what: str) -> bytes:
-    """pack() (twice, the caller modifying the first returned buffer in between) is P-field, day, millisecond of
-    the stamp's own fields"""
+    """pack() (twice, the caller modifying the first returned buffer in between) is P-field 0x40, day, millisecond of
+    the stamp's own fields - for every stamp OBJECT, however it was obtained (constructor, decoder, from_datetime, an
+    addition) - and the `pfield` view of the object says 0x40 as well"""
     raw = core.pack_stable(s, what)
     d, ms = int(s.ccsds_days), int(s.ms_of_day)
     if 0 <= d <= MAX_DAYS and 0 <= ms < (1 << 32) and raw != _raw(0x40, d, ms):
         raise SelfCheckFailure(f"{what} = {raw.hex()} is not 0x40 | day {d} | ms {ms}")
+    p = _pfield_octet(s)
+    if p is not None and p != 0x40:
+        raise SelfCheckFailure(f"{what}: the stamp (day {d}, ms {ms}) shows pfield {p:#04x}, a CDS short stamp has P-field 0x40")
     return raw
 
 
@@ -93,6 +117,32 @@ def _packed_form(s, what: str) -> bytes:
 # for the line - also when a new field value is 0 (a midnight, day 0 of the epoch) and the old one was not.
 # Case key "factory" of cds_new (days = ms = 0): the stamp comes from CdsShortTimestamp.empty(); stamps the same factory handed
 # out before are re-used in place by the application (core.factory_independent).
+# Case key "src" (cds_add, cds_pack, cds_new; not read by the model ops): HOW the stamp holding the line's (days, ms) was
+# obtained - the property quantifies over timestamps, i.e. over values, so it must not matter:
+#   {"how": "new"}                       CdsShortTimestamp(days, ms)
+#   {"how": "unpack"[, "buf": "bytearray"]}   CdsShortTimestamp.unpack(0x40 | days | ms)
+#   {"how": "read", "old": {days, ms}}   read_from_raw(0x40 | days | ms) into a stamp that held `old` and had been read
+#   {"how": "from_unix_days"}            CdsShortTimestamp.from_unix_days(days - 4383, ms)
+#   {"how": "from_dt", "rem_us": r}      from_datetime(1958-01-01Z + days + ms + r us), 0 <= r <= 999: EVERY datetime of that
+#                                        millisecond is the same stamp (floor to the millisecond)
+#   {"how": "now"}                       CdsShortTimestamp.now() - the one source whose value the line cannot fix: the op compares
+#                                        now() + timedelta with CdsShortTimestamp(days', ms') + timedelta for the (days', ms')
+#                                        that now() shows, and answers the line itself with a directly built stamp
+#   optional "start": {days, ms} and "pre": [[td_days, td_s, td_us], ...]: the source yields `start`, then the timedeltas of
+#   "pre" are added one after the other (each floored on its own) and must arrive at the line's (days, ms) - the stamp is
+#   the RESULT of earlier additions. Every intermediate stamp is compared with a stamp built directly from its (days, ms).
+# Views of a stamp that came out of from_datetime()/now() may keep the sub-millisecond part of the caller's datetime (module
+# docstring); for those sources the two time views are floored to the millisecond before they are compared.
+# Case key "refused" (cds_add): additions that leave the 16-bit day range were tried on the stamp BEFORE the line's own
+# addition (see _refused_first). "... or OverflowError when the day count would exceed 16 bits": a refused addition is a
+# refusal - on EVERY cds_add line that is answered with OverflowError the operand is looked at afterwards (_add_or_intact): it
+# shows its old (days, ms) in every view, packs to 0x40 | days | ms, is == a directly built stamp; it is not left outside the
+# property's domain (day count > 65535, pack() raising).
+# Case keys "alt_p" / "alt_old" of cds_unpack (the line's own octets are canonical): the same day / millisecond octets are
+# also decoded behind first octet alt_p (0..255), through unpack and through read_from_raw into a stamp that held alt_old.
+# Whether one of the 15 preambles that differ from 0x40 only in bits the decoder does not document is accepted is NOT claimed
+# either way (DESIGN.md section 8); the 240 wrong P-fields must be refused by both paths, 0x40 accepted, and IF a decoder hands
+# back an object, that object is a CDS short stamp: pack() = 0x40 | its own days | its own ms, pfield 0x40.
 # --------------------------------------------------------------------------------------------
 STAMP_VIEWS = [
     ("days", lambda s: int(s.ccsds_days)), ("ms", lambda s: int(s.ms_of_day)),
@@ -108,13 +158,179 @@ def _old_stamp(h):
     return s
 
 
-def _as_fresh(s, fresh, what: str):
-    now, want = core.read_views(s, STAMP_VIEWS), core.read_views(fresh, STAMP_VIEWS)
+def _as_fresh(s, fresh, what: str, views=None):
+    views = STAMP_VIEWS if views is None else views
+    now, want = core.read_views(s, views), core.read_views(fresh, views)
     for n in now:
         if now[n] != want[n]:
             raise SelfCheckFailure(f"{what}: `{n}` shows {now[n]}, a stamp built directly with the final values shows {want[n]}")
     if not (s == fresh) or not (fresh == s):
         raise SelfCheckFailure(f"{what}: the stamp is not == to a stamp built directly with the final values")
+
+
+# the same views with the two time views floored to the millisecond (stamps out of from_datetime / now, see above)
+FLOOR_VIEWS = [(n, f) for n, f in STAMP_VIEWS if n not in ("unix_ms", "dt")] + [
+    ("unix_ms", lambda s: _nearest(s.as_unix_seconds(), 1_000_000) // 1000),
+    ("dt_ms", lambda s: _dt_us(_dt_view(s)) // 1000),
+]
+
+
+def _start_stamp(d: int, ms: int, src: Dict[str, Any]):
+    """(stamp, description): the stamp (d, ms) obtained the way `src` says"""
+    how = src.get("how", "new")
+    if how == "new":
+        return CdsShortTimestamp(d, ms), f"CdsShortTimestamp({d}, {ms})"
+    if how == "unpack":
+        raw = _raw(0x40, d, ms)
+        return CdsShortTimestamp.unpack(bytearray(raw) if src.get("buf") == "bytearray" else raw), f"unpack({raw.hex()})"
+    if how == "read":
+        old = src["old"]
+        s = _old_stamp(old)
+        s.read_from_raw(_raw(0x40, d, ms))
+        return s, f"read_from_raw({_raw(0x40, d, ms).hex()}) into a stamp that was ({old['days']}, {old['ms']}) and had been read"
+    if how == "from_unix_days":
+        return CdsShortTimestamp.from_unix_days(d - OFFSET, ms), f"from_unix_days({d - OFFSET}, {ms})"
+    if how == "from_dt":
+        r = src.get("rem_us", 0)
+        if not 0 <= r <= 999:
+            raise InfraError(f"malformed line: rem_us={r}")
+        dt = E1958 + timedelta(days=d, milliseconds=ms, microseconds=r)
+        return CdsShortTimestamp.from_datetime(dt), f"from_datetime({dt.isoformat()})"
+    raise InfraError(f"malformed line: src how={how!r}")
+
+
+def _src_views(src: Optional[Dict[str, Any]]):
+    return FLOOR_VIEWS if src and src.get("how") in ("from_dt", "now") else STAMP_VIEWS
+
+
+def _sourced_stamp(a):
+    """(stamp, description) for a line with key "src": the stamp holding the line's (days, ms), obtained as "src" says; every
+    stamp on the way is what a stamp built directly from its (days, ms) is"""
+    src = a["src"]
+    views = _src_views(src)
+    st = src.get("start") or {"days": a["days"], "ms": a["ms"]}
+    d, ms = st["days"], st["ms"]
+    # the line is checked before anything is run: integer arithmetic from `start` over "pre" arrives at the line's stamp
+    steps = []
+    for tdf in src.get("pre", ()):
+        td = timedelta(days=tdf[0], seconds=tdf[1], microseconds=tdf[2])
+        if td < timedelta(0) or (td.days, td.seconds, td.microseconds) != tuple(tdf):
+            raise InfraError(f"malformed line: pre={tdf}")
+        d, ms = divmod(d * MS + ms + tdf[0] * MS + tdf[1] * 1000 + tdf[2] // 1000, MS)
+        steps.append((td, d, ms))
+    if (d, ms) != (a["days"], a["ms"]) or not (0 <= st["days"] <= d <= MAX_DAYS and 0 <= st["ms"] < MS):
+        raise InfraError(f"malformed line: the source arrives at ({d}, {ms}), not at the stamp of the line")
+    s, what = _start_stamp(st["days"], st["ms"], src)
+    _as_fresh(s, CdsShortTimestamp(st["days"], st["ms"]), what, views)
+    for td, d, ms in steps:
+        what += f" + {td!r}"
+        try:
+            s = s + td
+        except Exception as e:  # noqa
+            raise SelfCheckFailure(f"{what} raises {type(e).__name__}: it is ({d}, {ms})")
+        _as_fresh(s, CdsShortTimestamp(d, ms), what, views)
+    return s, what
+
+
+def _floored_payload(s) -> Dict[str, Any]:
+    """payload of a stamp whose time views may keep a sub-millisecond part (from_datetime / now and what follows from them)"""
+    us = _dt_us(_dt_view(s))
+    return {"days": int(s.ccsds_days), "ms": int(s.ms_of_day),
+            "unix_ms": _nearest(s.as_unix_seconds(), 1_000_000) // 1000, "dt_us": us // 1000 * 1000}
+
+
+def _still_is(s, d: int, ms: int, what: str, views=None):
+    """after a refused addition: the operand shows its old (d, ms) in every view, packs (0x40 | d | ms, no exception) and is ==
+    a stamp built directly - a refusal does not leave a stamp outside the property's domain (day count > 65535, pack() failing)"""
+    _as_fresh(s, CdsShortTimestamp(d, ms), what, views)
+    _packed_form(s, "pack() " + what)
+
+
+def _add_or_intact(s, td, d: int, ms: int, what: str, views=None):
+    """s + td where s holds (d, ms). "...or OverflowError when the day count would exceed 16 bits": a refused addition is a
+    refusal - the OverflowError is passed on as the answer of the line, after the operand has been looked at"""
+    try:
+        return s + td
+    except OverflowError:
+        _still_is(s, d, ms, f"after {what} + {td!r} was refused with OverflowError, the operand", views)
+        raise
+
+
+def _refused_first(a, s, what: str, views=None):
+    """Case key "refused" (cds_add; not read by the model ops): [[td_days, td_s, td_us], ...] - additions that leave the 16-bit
+    day range were tried on the stamp of the line, one after the other, BEFORE the line's own addition. Each must be refused
+    with OverflowError and leave the operand as it was; the line's own addition on the same object is then answered by the
+    model for the line's (days, ms) - the refusals are no part of the value."""
+    d, ms = a["days"], a["ms"]
+    for tdf in a.get("refused", ()):
+        tdr = timedelta(days=tdf[0], seconds=tdf[1], microseconds=tdf[2])
+        if tdr < timedelta(0) or (tdr.days, tdr.seconds, tdr.microseconds) != tuple(tdf) or \
+                (d * MS + ms + tdf[0] * MS + tdf[1] * 1000 + tdf[2] // 1000) // MS <= MAX_DAYS:
+            raise InfraError(f"malformed line: refused={tdf} does not leave the day range")
+        try:
+            _add_or_intact(s, tdr, d, ms, what, views)
+        except OverflowError:
+            continue
+        raise SelfCheckFailure(f"{what} + {tdr!r} is accepted: the day count exceeds 16 bits")
+
+
+def _add_from_source(a, td):
+    src = a["src"]
+    views = _src_views(src)
+    if src.get("how") == "now":
+        s = CdsShortTimestamp.now()
+        d, ms = int(s.ccsds_days), int(s.ms_of_day)
+        what = f"CdsShortTimestamp.now() = ({d}, {ms})"
+        _as_fresh(s, CdsShortTimestamp(d, ms), what, views)
+        twin = CdsShortTimestamp(d, ms)
+        try:
+            r = _add_or_intact(s, td, d, ms, what, views)
+        except OverflowError:
+            r = None
+        try:
+            want = twin + td
+        except OverflowError:
+            want = None
+        if (r is None) != (want is None):
+            raise SelfCheckFailure(f"{what} + {td!r} is {'refused' if r is None else 'accepted'}, CdsShortTimestamp({d}, {ms}) + the same is not")
+        if r is not None:
+            _as_fresh(r, want, what + f" + {td!r}", views)
+            _packed_form(r, f"pack() of {what} + {td!r}")
+        return _stamp_payload(_add_or_intact(CdsShortTimestamp(a["days"], a["ms"]), td, a["days"], a["ms"], "CdsShortTimestamp(days, ms)"))
+    s, what = _sourced_stamp(a)
+    _refused_first(a, s, what, views)
+    # the line's own addition: a refusal is the answer of the line, and the model's answer on (days, ms, timedelta) is the
+    # reference for the sum (the payload), whatever the source was
+    r = _add_or_intact(s, td, a["days"], a["ms"], what, views)
+    _packed_form(r, f"pack() of {what} + {td!r}")
+    return _floored_payload(r) if views is FLOOR_VIEWS else _stamp_payload(r)
+
+
+def _decode_any_preamble(p: int, rest: bytes, old: Dict[str, int]):
+    """first octet p in front of day / millisecond octets, through both decoders (see "alt_p" above)"""
+    raw = bytes([p]) + rest
+
+    def via_read(b):
+        s = _old_stamp(old)
+        s.read_from_raw(b)
+        return s
+    for name, dec in (("CdsShortTimestamp.unpack", CdsShortTimestamp.unpack),
+                      (f"read_from_raw into a stamp that was ({old['days']}, {old['ms']}) and had been read:", via_read)):
+        try:
+            s = dec(raw)
+        except Exception as e:  # noqa
+            if core.exc_category(e) not in core.DOCUMENTED:
+                raise SelfCheckFailure(f"{name}({raw.hex()}) raises {type(e).__name__}, not a documented refusal")
+            if p == 0x40:
+                raise SelfCheckFailure(f"{name}({raw.hex()}) refuses a canonical stamp ({type(e).__name__})")
+            continue
+        if _pfield_refused(p):
+            raise SelfCheckFailure(f"{name}({raw.hex()}) accepts P-field {p:#04x} (time code id != 100 or 24-bit day flag)")
+        packed = _packed_form(s, f"pack() of the stamp returned by {name}({raw.hex()})")
+        if int(s.len_packed) != 7 or len(packed) != 7:
+            raise SelfCheckFailure(f"{name}({raw.hex()}): len_packed {s.len_packed}, {len(packed)} octets packed")
+        if not (CdsShortTimestamp.unpack(packed) == s):
+            raise SelfCheckFailure(f"{name}({raw.hex()}): unpack(pack(s)) != s")
 
 
 def op_cds_new(a):
@@ -130,6 +346,10 @@ def op_cds_new(a):
         if err is not None:
             raise SelfCheckFailure(err)
         return _stamp_payload(CdsShortTimestamp.empty())
+    if a.get("src"):
+        s, what = _sourced_stamp(a)
+        _packed_form(s, f"pack() of {what}")
+        return _floored_payload(s) if _src_views(a["src"]) is FLOOR_VIEWS else _stamp_payload(s)
     s = CdsShortTimestamp(a["days"], a["ms"])
     if int(s.len_packed) != 7:
         raise SelfCheckFailure("len_packed != 7")
@@ -139,8 +359,12 @@ def op_cds_new(a):
 
 
 def op_cds_pack(a):
-    s = CdsShortTimestamp(a["days"], a["ms"])
-    raw = core.pack_stable(s, "CdsShortTimestamp.pack()")
+    if a.get("src"):
+        s, what = _sourced_stamp(a)
+        raw = _packed_form(s, f"pack() of {what}")
+    else:
+        s = CdsShortTimestamp(a["days"], a["ms"])
+        raw = core.pack_stable(s, "CdsShortTimestamp.pack()")
     if len(raw) != int(s.len_packed):
         raise SelfCheckFailure("len(pack()) != len_packed")
     if bytes(s.pfield) != raw[:1]:
@@ -157,6 +381,8 @@ def op_cds_unpack(a):
     s = CdsShortTimestamp.unpack(raw)
     # stamps decoded by earlier calls must still show what they showed then
     _ISO.check("CdsShortTimestamp", s, _stamp_view)
+    if "alt_p" in a:
+        _decode_any_preamble(a["alt_p"], raw[1:], a["alt_old"])
     if a.get("hist"):
         h = a["hist"]
         old = _old_stamp(h)
@@ -213,6 +439,8 @@ def op_cds_add(a):
     td = timedelta(days=a["td_days"], seconds=a["td_s"], microseconds=a["td_us"])
     if (td.days, td.seconds, td.microseconds) != (a["td_days"], a["td_s"], a["td_us"]):
         raise InfraError(f"generator produced a non-normalised timedelta: {a}")
+    if a.get("src"):
+        return _add_from_source(a, td)
     if a.get("hist"):
         h = a["hist"]
         s = _old_stamp(h)
@@ -227,12 +455,15 @@ def op_cds_add(a):
             raise InfraError(f"malformed line: how={h['how']!r}")
         what = f"a stamp that was ({h['days']}, {h['ms']}), had been read and was brought to ({a['days']}, {a['ms']}) in place ({h['how']})"
         _as_fresh(s, CdsShortTimestamp(a["days"], a["ms"]), what)
-        r = s + td
+        _refused_first(a, s, what)
+        r = _add_or_intact(s, td, a["days"], a["ms"], what)
         _as_fresh(r, CdsShortTimestamp(a["days"], a["ms"]) + td, what + f" + {td!r}")
         return _stamp_payload(r)
     s = CdsShortTimestamp(a["days"], a["ms"])
     s.pack()    # a stamp that was packed before the addition: the sum must not keep the old packed form
-    r = s + td
+    what = f"CdsShortTimestamp({a['days']}, {a['ms']})"
+    _refused_first(a, s, what)
+    r = _add_or_intact(s, td, a["days"], a["ms"], what)
     _packed_form(r, "pack() of stamp + timedelta")
     return _stamp_payload(r)
 
@@ -289,12 +520,17 @@ def _td_fields(total_us: int) -> Tuple[int, int, int]:
     return td.days, td.seconds, td.microseconds
 
 
-def _add_case(days: int, ms: int, td: Tuple[int, int, int], tag: str, hist: Optional[Dict[str, Any]] = None) -> Case:
+def _add_case(days: int, ms: int, td: Tuple[int, int, int], tag: str, hist: Optional[Dict[str, Any]] = None,
+              src: Optional[Dict[str, Any]] = None, refused: Optional[List[List[int]]] = None) -> Case:
     tdays, ts, tus = td
     t = days * MS + ms + tdays * MS + ts * 1000 + tus // 1000
     op = {"op": "cds_add", "days": days, "ms": ms, "td_days": tdays, "td_s": ts, "td_us": tus}
     if hist is not None:
         op["hist"] = hist
+    if src is not None:
+        op["src"] = src
+    if refused:
+        op["refused"] = [list(x) for x in refused]
     if t // MS > MAX_DAYS:
         return Case(op, "invalid", errclass=True, tag=tag + "-overflow")
     return Case(op, "valid", tag=tag)
@@ -307,8 +543,10 @@ class C14(Prop):
     exhaustive_note = ("all 65 536 day counts through pack and through unpack (millisecond values cycling through a "
                        "boundary pool and random values); all 256 values of each of the four millisecond octets "
                        "(restricted to ms < 86 400 000); all 256 P-field octets except the 15 that differ from 0x40 "
-                       "only in bits the decoder does not document (not claimed either way); every truncation 0..6 "
-                       "of sampled stamps")
+                       "only in bits the decoder does not document (not claimed either way); all 256 first octets "
+                       "through unpack and through read_from_raw into a used stamp: the 240 wrong ones refused, and whatever "
+                       "object a decoder hands back packs to 0x40 | its days | its ms with pfield 0x40; every truncation "
+                       "0..6 of sampled stamps")
     trusted_base = [
         "IEEE-754 double evaluation inside as_unix_seconds() and CPython datetime/timedelta arithmetic: the views "
         "are converted to exact integers by harness/props/c14.py and compared with the model's integer unixMs",
@@ -318,7 +556,13 @@ class C14(Prop):
     ]
     assumptions = [
         "P-fields 0x41-0x43, 0x48-0x4B, 0xC0-0xC3, 0xC8-0xCB and decoded millisecond values >= 86 400 000 are "
-        "accepted by the code and the model; the statement does not claim them either way and they are not generated",
+        "accepted by the code and the model; the statement does not claim them either way (acceptance or refusal of the "
+        "15 preambles is not compared; only: an object that a decoder returns for them is a CDS short stamp, P-field "
+        "0x40 when packed)",
+        "stamp + timedelta floors the timedelta (microseconds // 1000 of CPython's normalised fields = floor of the "
+        "total microseconds / 1000, days >= 0) and nothing else: the stamp is its (days, ms) pair for every source "
+        "(constructor, unpack, read_from_raw, from_unix_days, from_datetime of any datetime of that millisecond, now(), "
+        "an earlier addition); time views of stamps out of from_datetime()/now() are compared floored to the millisecond",
         "naive datetimes, non-UTC time zones, negative timedeltas and stamps constructed outside 0..65535 / "
         "0..86399999 are outside the statement; ms_of_today is a float helper outside the statement",
     ]
@@ -386,6 +630,9 @@ class C14(Prop):
         def rdays() -> int:
             return rng.choice(DAY_POOL) if rng.random() < 0.3 else rng.randint(0, MAX_DAYS)
 
+        def old_fields():
+            return {"days": rng.choice([1, 30000, 65535, rng.randint(1, MAX_DAYS)]), "ms": rng.choice([1, 1000, MS - 1, rng.randrange(1, MS)])}
+
         # --- exhaustive: every day count through pack and unpack (+ suffix) -------------------
         for d in range(MAX_DAYS + 1):
             ms = MS_POOL[d % len(MS_POOL)] if d % 2 else rng.randrange(MS)
@@ -414,6 +661,14 @@ class C14(Prop):
                 if cl is None:
                     continue
                 yield Case({"op": "cds_unpack", "raw": hx(raw)}, cl, tag="pfield-sweep-" + cl)
+        # every first octet again, in front of the day / millisecond octets of a canonical stamp (key "alt_p"): what either
+        # decoder hands back for ANY first octet is a CDS short stamp (P-field 0x40 when packed); the 240 wrong ones are
+        # refused by read_from_raw as well
+        for rep in range(2 * mult):
+            for p in range(256):
+                d, ms = (rdays(), rms()) if rep else rng.choice([(0, 0), (0x0102, 0x03040506), (MAX_DAYS, MS - 1), (4382, MS - 1)])
+                yield Case({"op": "cds_unpack", "raw": hx(_raw(0x40, d, ms) + (_suffix(rng) if rep else b"")), "alt_p": p,
+                            "alt_old": old_fields()}, "valid", tag="pfield-any-object")
         # --- boundary pools -----------------------------------------------------------------------
         for d in DAY_POOL:
             for ms in MS_POOL:
@@ -450,9 +705,6 @@ class C14(Prop):
             yield Case({"op": "cds_pack", "days": d2, "ms": ms2}, "valid", tag="complement-pair")
         # --- stamps re-used in place (key "hist"): read_from_raw into a stamp that held other values, additions on a stamp
         #     that got its values in place; new field values 0 / boundary values over old non-zero ones and vice versa ---------
-        def old_fields():
-            return {"days": rng.choice([1, 30000, 65535, rng.randint(1, MAX_DAYS)]), "ms": rng.choice([1, 1000, MS - 1, rng.randrange(1, MS)])}
-
         for d in [0, 0, 1, 4383, 65535] + [rdays() for _ in range(12 * mult)]:
             for ms in [0, 0, 1, 1000, MS - 1] + [rms() for _ in range(3)]:
                 yield Case({"op": "cds_unpack", "raw": hx(_raw(0x40, d, ms) + _suffix(rng)), "hist": old_fields()}, "valid", tag="reused-read")
@@ -538,6 +790,131 @@ class C14(Prop):
                 yield _add_case(d, ms, (0, 0, rng.randint(0, 999)), "add-sub-ms")
                 yield _add_case(d, ms, (0, 86399, 999_999), "add-max-subday")
                 yield _add_case(d, ms, (rng.choice([65536, 10 ** 6, 999_999_999]), rng.randint(0, 86399), rng.randint(0, 999_999)), "add-huge")
+        # --- the SOURCE of the stamp (key "src"): the same (days, ms) out of the constructor, a decoder, from_unix_days,
+        #     from_datetime of every datetime of that millisecond, an earlier addition; timedeltas whose sub-millisecond part
+        #     would carry if the stamp had a hidden sub-millisecond part of its own --------------------------------------------
+        rem_pool = [0, 1, 500, 999, 700]
+
+        def a_source(rem=None):
+            k = rng.randrange(7)
+            if k == 0:
+                return {"how": "unpack", "buf": rng.choice(["bytes", "bytearray"])}
+            if k == 1:
+                return {"how": "read", "old": old_fields()}
+            if k == 2:
+                return {"how": "from_unix_days"}
+            if k == 3:
+                return {"how": "new"}
+            return {"how": "from_dt", "rem_us": rng.choice(rem_pool + [rng.randint(0, 999)]) if rem is None else rem}
+
+        def with_pre(src, d, ms, n):
+            """`src` extended so that it starts n additions before (d, ms); None if there is no room before (d, ms)"""
+            pre, t = [], d * MS + ms
+            for _ in range(n):
+                g = rng.choice([0, 1, 2, 1000, rng.randrange(MS), MS, rng.randrange(3 * MS)])
+                g = min(g, t)
+                t -= g
+                pre.insert(0, list(_td_fields(g * 1000 + rng.choice([0, 1, 400, 999, 999, 600]))))
+            d0, ms0 = divmod(t, MS)
+            return {**src, "start": {"days": d0, "ms": ms0}, "pre": pre}
+
+        positions = [(24170, 43_200_000), (24170, MS - 2), (24170, MS - 1), (24171, 0), (4382, MS - 2), (4382, MS - 1), (0, 0),
+                     (MAX_DAYS, 0), (MAX_DAYS, MS - 2), (MAX_DAYS, MS - 1), (MAX_DAYS - 1, MS - 1), (rdays(), rms()), (rdays(), rms())]
+        td_us_pool = [0, 1, 400, 500, 999, 1000, 1001, 1400, 1999, 999_999]
+        for d, ms in positions:
+            for tus in td_us_pool:
+                # from_datetime of every datetime of the millisecond
+                for rem in rem_pool:
+                    yield _add_case(d, ms, (0, 0, tus), "src-from-dt", src={"how": "from_dt", "rem_us": rem})
+                # the other sources; the result of an earlier addition (with a sub-millisecond timedelta of its own)
+                if tus in (1, 999, 1000, 1400, 999_999):
+                    for src in ({"how": "unpack"}, {"how": "unpack", "buf": "bytearray"}, {"how": "read", "old": old_fields()},
+                                {"how": "from_unix_days"}, with_pre({"how": "new"}, d, ms, 1),
+                                with_pre({"how": "from_dt", "rem_us": rng.choice([1, 500, 999])}, d, ms, 1)):
+                        yield _add_case(d, ms, (0, 0, tus), "src-" + src["how"] + ("-then-add" if "pre" in src else ""), src=src)
+            # whole days and seconds on top: the same millisecond arithmetic, landing on the last day
+            room = MAX_DAYS - d
+            for rem in (0, 1, 999):
+                for tdf in ((room, 0, 1400), (room, 0, 999), (room + 1, 0, 0), (max(room - 1, 0), 86399, 999_999), (1, 1, 1001)):
+                    yield _add_case(d, ms, tdf, "src-from-dt-days", src={"how": "from_dt", "rem_us": rem})
+            # the stamp seen through pack() and through its views
+            for src in [{"how": "from_dt", "rem_us": r} for r in rem_pool] + [
+                    {"how": "unpack"}, {"how": "read", "old": old_fields()}, {"how": "from_unix_days"},
+                    with_pre({"how": "new"}, d, ms, 1), with_pre({"how": "from_dt", "rem_us": 999}, d, ms, 2)]:
+                yield Case({"op": "cds_pack", "days": d, "ms": ms, "src": src}, "valid", tag="src-pack")
+                yield Case({"op": "cds_new", "days": d, "ms": ms, "src": src}, "valid", tag="src-views")
+        # chains of two additions from a datetime-built stamp: hidden remainder r1, first timedelta r2, second timedelta r3
+        for d0, ms0 in ((24170, 43_200_000), (24170, MS - 3), (MAX_DAYS, MS - 3), (4382, MS - 3)):
+            for rem in rem_pool:
+                for us1 in (1, 400, 999, 1400):
+                    for us2 in (1, 600, 999, 1400):
+                        d, ms = divmod(d0 * MS + ms0 + us1 // 1000, MS)
+                        yield _add_case(d, ms, (0, 0, us2), "src-chain",
+                                        src={"how": "from_dt", "rem_us": rem, "start": {"days": d0, "ms": ms0}, "pre": [[0, 0, us1]]})
+        for i in range(500 * mult):
+            d = rng.choice([0, 4382, 4383, 65534, 65535]) if rng.random() < 0.3 else rng.randint(0, MAX_DAYS)
+            ms = rng.choice([MS - 1, MS - 2, MS - 1000, 0]) if rng.random() < 0.3 else rms()
+            src = a_source()
+            if i % 3 == 0:
+                src = with_pre(src, d, ms, rng.choice([1, 2]))
+            kind = i % 4
+            if kind == 0:       # around the next midnight
+                tot_us = (rng.choice([0, 0, 1, rng.randint(0, 400)]) * MS + MS - ms + rng.choice([-2, -1, 0, 1])) * 1000
+            elif kind == 1:     # around the end of day 65535
+                tot_us = ((MAX_DAYS - d) * MS + MS - ms + rng.choice([-2, -1, 0])) * 1000
+            elif kind == 2:     # below two milliseconds
+                tot_us = 0
+            else:
+                tot_us = rng.randrange(0, 3 * DAY_US)
+            tot_us = max(tot_us, 0) + rng.choice([0, 1, 400, 500, 999, 1400, 1999, rng.randint(0, 1999)])
+            yield _add_case(d, ms, _td_fields(tot_us), "src-random-" + src["how"] + ("-then-add" if "pre" in src else ""), src=src)
+        for tus in (1, 999, 1400, 999_999):
+            yield _add_case(24170, 1, (0, 0, tus), "src-now", src={"how": "now"})
+        yield _add_case(24170, 1, (70000, 0, 999), "src-now", src={"how": "now"})
+        yield _add_case(24170, 1, (65536, 86399, 999_999), "src-now", src={"how": "now"})
+        # --- refused additions (every line above whose answer is OverflowError looks at the operand afterwards); here: the
+        #     refusal by the carry alone, by the days alone, by both, from every source, and (key "refused") followed by a
+        #     valid addition on the same object ---------------------------------------------------------------------------
+        def refusals(d, ms):
+            """timedeltas that take (d, ms) out of the range: by the carry only (last day), by the days only, by both"""
+            room = MAX_DAYS - d
+            out = [(room + 1, 0, 0), (room + 1, 0, 999), (room, 0, (MS - ms) * 1000), (room, 0, (MS - ms) * 1000 + 999),
+                   (room, 86399, 999_999) if ms > 0 else (room + 1, 0, 1), (room + 1000, 1, 1000), (10 ** 6, 0, 0)]
+            return [_td_fields(x[0] * DAY_US + x[1] * 1_000_000 + x[2]) for x in out]
+
+        def sources(d, ms):
+            return [None, {"how": "new"}, {"how": "unpack"}, {"how": "unpack", "buf": "bytearray"}, {"how": "read", "old": old_fields()},
+                    {"how": "from_unix_days"}, {"how": "from_dt", "rem_us": 0}, {"how": "from_dt", "rem_us": 999},
+                    {"how": "from_dt", "rem_us": rng.choice([1, 500, 700])}, with_pre({"how": "new"}, d, ms, 1),
+                    with_pre({"how": "from_dt", "rem_us": 999}, d, ms, 2)]
+
+        def histories(d, ms):
+            d0 = max(d - 2, 0)
+            return [{**old_fields(), "how": "read"},
+                    {"days": d0, "ms": rng.randrange(0, ms + 1) if d0 == d else rng.randrange(MS), "how": "add"}]
+
+        spots = [(MAX_DAYS, MS - 1), (65000, 5), (MAX_DAYS, MS - 5), (MAX_DAYS, 0), (100, 0), (MAX_DAYS - 1, MS - 1), (0, 0),
+                 (4382, MS - 1), (24170, 43_200_000)] + [(rdays(), rms()) for _ in range(4 * mult)]
+        for d, ms in spots:
+            rf = refusals(d, ms)
+            if (d, ms) == (MAX_DAYS, MS - 1):
+                rf.insert(0, (0, 0, 1000))            # day 65535, 23:59:59.999 + 1 ms
+            if (d, ms) == (65000, 5):
+                rf.insert(0, (1000, 0, 1000))         # (65000, 5) + 1000 d 1 ms
+            room_ms = (MAX_DAYS - d) * MS + MS - 1 - ms     # what still fits
+            valid_after = [(0, 0, 0), (0, 0, 999), _td_fields(room_ms * 1000 + 999), _td_fields(rng.randint(0, room_ms) * 1000 + rng.choice([0, 1, 999]))]
+            for j, tdf in enumerate(rf):
+                for src in sources(d, ms):
+                    yield _add_case(d, ms, tdf, "refused-" + (src["how"] if src else "plain"), src=src)
+                for h in histories(d, ms):
+                    yield _add_case(d, ms, tdf, "refused-hist-" + h["how"], hist=h)
+            for va in valid_after:
+                for src in sources(d, ms):
+                    yield _add_case(d, ms, va, "refused-then-valid", src=src, refused=rng.sample(rf, rng.choice([1, 1, 2])))
+                for h in histories(d, ms):
+                    yield _add_case(d, ms, va, "refused-then-valid", hist=h, refused=[rng.choice(rf)])
+            # a refusal, then an addition that is refused as well
+            yield _add_case(d, ms, rf[0], "refused-twice", refused=[rf[-1], rf[1]])
         for d in DAY_POOL:
             for ms in MS_POOL:
                 for tdf in ((0, 0, (MS - ms) * 1000 % DAY_US), (0, 0, max((MS - ms) * 1000 - 1, 0) % DAY_US), (1, 0, 0), (0, 0, 999), (0, 0, 1000)):
